@@ -255,7 +255,9 @@ def run_case(case):
                 res.fail("C17/address-although-no-eligible-parent", "ID %d was given 0o%o although every node that may have children refuses them" % (i, a))
             continue
         if a is None:
-            if not lossy:
+            if not lossy and timeout < 7.5:
+                res.label("short-timeout-join-not-judged")  # (replays of older cases: a 2 s timeout on a loss-free medium)
+            elif not lossy:
                 res.fail("C17/join-failed/%s" % ("relay-needed" if n_nodes > 5 else "direct"), "ID %d got no address within %.1f s (%d nodes)" % (
                     i, timeout, n_nodes))
             continue
@@ -442,10 +444,12 @@ def _strategy(max_nodes=12):
             st.tuples(st.just("kill"), idx),
         ).map(list)
         lossy = draw(st.integers(0, 5)) == 0
+        word = draw(st.text(alphabet="DDDDDPA", min_size=2, max_size=15)) if lossy else "D"
+        # loss-free cases (also a drawn word without any P or A) join with the library's default timeout, on which the
+        # "within the given timeout" clause is judged; lossy cases use a short one (only termination is claimed there)
         return {"nodes": nodes, "master_mcu": draw(mcu), "script": draw(st.lists(op, max_size=10)), "concurrent": draw(st.booleans()),
                 "staggers": draw(st.lists(st.sampled_from([0, 100, 300, 700, 1500, 3000]), min_size=1, max_size=3)),
-                "loss": draw(st.text(alphabet="DDDDDPA", min_size=2, max_size=15)) if lossy else "D",
-                "timeout": 7.5 if not lossy else 2.0}
+                "loss": word, "timeout": 7.5 if not set(word) - {"D"} else 2.0}
 
     return case()
 
